@@ -75,7 +75,7 @@ PROPS["C01"] = dict(
 PROPS["C03"] = dict(
     level="fault_enumeration",
     rule=("rapid-generated scenario (0-3 clean pre-rounds ending near a tile boundary, optionally ending 'lock ahead of storage'; pool of 0, 1, tile-filling, "
-          "multi-tile or small size; a second unit uses rounds of several MiB: 70-100 entries with 64 KiB certificates, reduced sweep budget); the round is run fault-free to learn its operation trace, then a crash is injected at EVERY operation (in-flight operation "
+          "multi-tile or small size; a second unit uses rounds of several MiB: 70-100 entries with 64 KiB certificates, reduced sweep budget; a third unit mirrors every system and every clone onto a real LocalBackend directory and SQLite lock database, pools of about a full tile); the round is run fault-free to learn its operation trace, then a crash is injected at EVERY operation (in-flight operation "
           "applied / not applied) and for subsets of the parallel tile batch (all 2^m masks when m<=6, else boundary+sampled masks); for every crashed state the "
           "recovery (LoadLog) is swept the same way (quick: up to 10 evenly spaced points per state, thorough: all) with sampled repeated crashes; after the last crash a healthy "
           "restart, full storage audit at the lock checkpoint, acknowledgement check and one further round must succeed. evaluation = one crash path; "
@@ -86,6 +86,7 @@ PROPS["C03"] = dict(
     units=[
         sim("^TestVerifC03CrashSweep$", 3, 30, qs=4, files=["sim*.go", "c03*.go"]),
         sim("^TestVerifC03FatSweep$", 1, 3, qs=1, ts=8, files=["sim*.go", "c03*.go"]),
+        sim("^TestVerifC03RealSweep$", 1, 3, qs=1, ts=8, files=["sim*.go", "c03*.go"]),
     ],
 )
 
